@@ -109,6 +109,24 @@ class ExprMixin:
             return self.ops.mk_arr(want, smt.Int(len(items)), data)
         raise Unsupported(f"list literal as {want}")
 
+    def ev_Dict(self, node, st, want):
+        if want is not None and want.kind == "map":
+            m = self.empty_map(want)
+            for k, v in zip(node.keys, node.values):
+                kt = self.ops.term(self.eval(k, st), want.args[0])
+                vt = self.ops.term(self.eval(v, st, want.args[1]), want.args[1])
+                m = self.ops.mk_map(want, smt.Store(self.ops.map_dom(m), kt, smt.TRUE), smt.Store(self.ops.map_val(m), kt, vt))
+            return m
+        if not node.keys:
+            return {}
+        out = {}
+        for k, v in zip(node.keys, node.values):
+            kv = self.eval(k, st)
+            if not isinstance(kv, (EnumVal, int, str)):
+                raise Unsupported("dict literal with symbolic keys needs a Map[...] typed target")
+            out[kv] = self.eval(v, st)
+        return out
+
     def ev_Lambda(self, node, st, want):
         return Closure(node, st.env, "<lambda>")
 
@@ -406,10 +424,16 @@ class ExprMixin:
             if attr == "_make":
                 return BoundMethod(base, "_make")
         if isinstance(base, SV):
+            ra = getattr(self.E, "ref_attrs", {})
+            if base.pt.kind == "ref" and (base.pt.name, attr) in ra:
+                sf = self.E.specs[ra[(base.pt.name, attr)]]
+                return SV(self.ctx.app(sf.name, base.term), sf.ret)
             if base.pt.kind == "rec":
                 for f, _ in self.tenv.records[base.pt.name]:
                     if f == attr:
                         return self.ops.rec_field(base, attr)
+            if base.pt.kind == "ref" and attr != "traverse" and not self.E.registry.by_method.get((base.pt.name, attr)):
+                raise Unsupported(f"unmodelled attribute .{attr} of a {base.pt.name} (line {self.cur_line})")
             return BoundMethod(base, attr)
         if isinstance(base, (list, tuple, dict, int)):
             return BoundMethod(base, attr)
